@@ -223,6 +223,8 @@ class Sim:
             a = self.prog.adt(t["did"])
             if a is None:
                 return v
+            if t["name"] == "Reference" and self.models.LOCAL_MODELS_ENABLED:
+                return v   # rrtk::Reference is modelled as an opaque handle (identity = symbol name)
             if a["kind"] == "struct" and not a.get("opaque"):
                 fs = self.adt_fields(t)
                 return Struct(t, [Sym("%s.%s" % (v.name, n), ft) for n, ft in fs])
